@@ -321,6 +321,7 @@ struct OpRec {
     gate: Option<mpsc::Sender<()>>,
     done: bool,
     dropped: bool,
+    cancel_requested: bool,
 }
 
 struct World {
@@ -444,7 +445,7 @@ impl World {
                 })
             }
         };
-        let mut rec = OpRec { kind, pending: None, lazy, waker: None, gate, done: false, dropped: false };
+        let mut rec = OpRec { kind, pending: None, lazy, waker: None, gate, done: false, dropped: false, cancel_requested: false };
         match pushed {
             Pushed::Pending(pd) => {
                 rec.pending = Some(pd);
@@ -511,6 +512,15 @@ impl World {
         }
     }
 
+    /// (channel, is_read) an operation queues on in the polling driver
+    fn queue_of(k: &Kind) -> Option<(usize, bool)> {
+        match k {
+            Kind::Read(c, _) | Kind::Recv(c, _) | Kind::POnce(c, true) => Some((*c, true)),
+            Kind::Write(c, _) | Kind::Send(c, _) | Kind::POnce(c, false) => Some((*c, false)),
+            _ => None,
+        }
+    }
+
     fn wakes(&self, id: usize) -> usize {
         self.ops[&id].waker.as_ref().map(|w| w.0.load(Ordering::SeqCst)).unwrap_or(0)
     }
@@ -521,6 +531,21 @@ impl World {
         match pd.pop(&mut self.p) {
             Ok(d) => {
                 self.ops.get_mut(&id).unwrap().done = true;
+                // FIFO monitor (polling driver): an operation must not overtake an earlier one that waits
+                // for the same descriptor and direction
+                if !self.iour && d.res.is_ok() {
+                    if let Some(slot) = Self::queue_of(&self.ops[&id].kind) {
+                        let overtaken: Vec<usize> = self
+                            .ops
+                            .iter()
+                            .filter(|(j, o)| **j < id && o.pending.is_some() && !o.lazy && !o.cancel_requested && Self::queue_of(&o.kind) == Some(slot))
+                            .map(|(j, _)| *j)
+                            .collect();
+                        if !overtaken.is_empty() {
+                            ex.fail("C02:fifo", format!("op {id} completed before the earlier ops {overtaken:?} queued on the same descriptor and direction {slot:?}"));
+                        }
+                    }
+                }
                 let w = self.wakes(id);
                 // waker monitor: a registered waker is woken exactly once by the completion
                 if self.ops[&id].waker.is_some() && w != 1 {
@@ -630,7 +655,7 @@ impl World {
                 _ => false,
             };
             if ready {
-                let sig = if matches!(kind, Kind::Splice(..)) && !self.iour { "C02:stranded-multi-fd" } else { "C02:stranded" };
+                let sig = if matches!(kind, Kind::Splice(..)) && !self.iour { "C02a:multi-fd-stranded" } else { "C02:stranded" };
                 ex.fail(sig, format!("op {id} ({kind:?}) is still pending after the driver went quiescent although every descriptor it waits for is ready"));
             }
         }
@@ -876,6 +901,9 @@ fn exec_inner(case: &Case) -> Exec {
                         let r = match tok {
                             Some(t) => {
                                 tokens.insert(id, t.clone());
+                                if let Some(o) = wd.ops.get_mut(&id) {
+                                    o.cancel_requested = true;
+                                }
                                 wd.p.cancel_token(t)
                             }
                             None => false,
